@@ -1,6 +1,7 @@
 package main
 
 import (
+	"bufio"
 	"bytes"
 	"errors"
 	"fmt"
@@ -372,6 +373,10 @@ func implRead(t []string) string {
 	}
 	src := &chunkReader{items: items, plan: plan, errWith: errWith}
 	r := &frame.Reader{ByteReader: src, DialectRW: getDialectRW(t[1]), InKey: keyOf(t[2])}
+	if len(t) > 6 && strings.HasPrefix(t[6], "B") {
+		// the caller supplies the buffered reader (Reader.BufByteReader), of a size of its own choosing
+		r = &frame.Reader{BufByteReader: bufio.NewReaderSize(src, int(atoiU(t[6][1:]))), DialectRW: getDialectRW(t[1]), InKey: keyOf(t[2])}
+	}
 	if err := r.Initialize(); err != nil {
 		return "init-err"
 	}
